@@ -18,7 +18,7 @@ def release_on_begin(ctx, rule='C10.release-on-begin'):
     L = c09.locks_of(ctx)
     li = L.info(bf, {wp: True})
     du = ctx.du(bf)
-    sites = [(bb, t) for bb, t, c in calls_to_fn(ctx.facts, bf, rel) if bb in li.reach]
+    sites = [(bb, t) for bb, t, helper in c03._release_sites_from_begin(ctx, li, bf, rel)]
     if not sites:
         return [bad(rule, '%s | writer never releases pending pages' % bf.qual,
                     'the writer begin path never calls the release role: pages freed by earlier transactions are never moved to the free set and the file grows with every commit',
@@ -47,11 +47,12 @@ def release_on_begin(ctx, rule='C10.release-on-begin'):
             if l is not None and bf.locals[l]['ty'] == 'freelist::Freelist':
                 used.add(du.root_of(l, through_calls=False))
     for bb, t in sites:
-        l = op_local(t['args'][0])
-        recv = None
-        if l is not None:
-            pts = du.points[l]
-            recv = {r for (r, p) in pts} or {du.root_of(l, through_calls=False)}
+        recv = set()
+        for a in t['args']:
+            l = op_local(a)
+            if l is not None and ('freelist::Freelist' in bf.locals[l]['ty']):
+                pts = du.points[l]
+                recv |= {r for (r, p) in pts} or {du.root_of(l, through_calls=False)}
         if used and recv and (recv & used):
             res.append(ok(rule, 'release at %s acts on the free list handed to the transaction' % bf.loc(bb), sites=1))
         else:
@@ -239,6 +240,68 @@ def release_per_entry(ctx, rule='C10.release-per-entry'):
     return res
 
 
+def delete_walk_guard(ctx, rule='C10.delete-walk-guard'):
+    """a deleted bucket's committed pages are walked (and freed) exactly when it HAS committed pages: the only admissible
+    guard in front of the walk is the test of its root page id"""
+    res = []
+    try:
+        dw, txfree = ctx.need('delete-walk', 'tx-free-role')
+    except AnchorError as e:
+        return [unresolved(rule, str(e))]
+    fn = dw
+    du = ctx.du(fn)
+    frees = calls_to_fn(ctx.facts, fn, txfree)
+    f = floor(rule, 'page frees in the bucket deletion walk', len(frees), 1)
+    if f:
+        return [f]
+    def direct_flag(l, depth=0):
+        """(adt, field) if bool local l is a (possibly negated) copy of a bool field of a local ADT"""
+        while depth < 8:
+            depth += 1
+            ds = du.defs.get(l, [])
+            if len(ds) != 1 or ds[0][1] is None:
+                return None
+            s2 = fn.blocks[ds[0][0]]['stmts'][ds[0][1]]
+            rv = s2['rv']
+            o = rv.get('op') if rv['k'] == 'use' else (rv.get('a') if rv['k'] == 'un' and rv['op'] == 'Not' else None)
+            if o is None or not isinstance(o, dict):
+                return None
+            p2 = op_place(o)
+            if p2 is None:
+                return None
+            fs = [e for e in p2['pr'] if e['k'] == 'field']
+            if fs:
+                return (last_seg(fs[-1]['adt']) if fs[-1].get('adt') else None, fs[-1].get('name'), fs[-1].get('ty'))
+            l = p2['l']
+        return None
+    for bb, t, c in frees:
+        badf = set()
+        root_tested = False
+        for (a, sx) in fn.control_deps_transitive(bb):
+            at = fn.term(a)
+            if at['k'] != 'switch':
+                continue
+            _, atoms = du.slice_operand(at['discr'])
+            fields = {(last_seg(x[1]), x[2]) for x in atoms if x[0] == 'field' and x[1]}
+            if ('BucketMeta', 'root_page') in fields and any(x[0] == 'bin' and x[1] in ('Ne', 'Eq', 'Gt') for x in atoms):
+                root_tested = True
+            dl = op_local(at['discr'])
+            if dl is not None:
+                fl = direct_flag(dl)
+                if fl and fl[0] in ('InnerBucket', 'Node') and fl[2] == 'bool':
+                    badf.add((fl[0], fl[1]))
+        if badf:
+            res.append(bad(rule, '%s | page walk guarded by %s' % (fn.qual, ','.join(sorted('%s.%s' % f2 for f2 in badf))),
+                           'in %s the walk that frees a deleted bucket\'s committed pages (%s) is guarded by %s instead of only by "the bucket has a committed root page": a committed bucket for which '
+                           'the guard is false is deleted without freeing its pages (they leak permanently, the file grows)' % (fn.qual, fn.loc(bb), sorted('%s.%s' % f2 for f2 in badf)), where=fn.loc(bb)))
+        elif not root_tested:
+            res.append(bad(rule, '%s | page walk not guarded by the root page test' % fn.qual,
+                           'the page walk at %s is not controlled by a test of the deleted bucket\'s root page id: a bucket created in this transaction (root page 0) would make it free page 0' % fn.loc(bb), where=fn.loc(bb)))
+        else:
+            res.append(ok(rule, 'the deletion walk at %s runs exactly when the deleted bucket has a committed root page' % fn.loc(bb), sites=1))
+    return res
+
+
 def run(ctx, tier):
     ob = commit.obligations(ctx)
     results = []
@@ -250,6 +313,7 @@ def run(ctx, tier):
     results += deregister(ctx)
     results += blocking_registry(ctx)
     results += release_per_entry(ctx)
+    results += delete_walk_guard(ctx)
     results += c03.register(ctx, rule='C10.register')
     return dict(
         results=results, stats=dict(ctx.stats),
